@@ -13,7 +13,7 @@ use crate::engine::{catch, h64, par_range, run_generated, Ctx, Stats};
 use crate::oracle::vsign::*;
 use crate::repr::M;
 
-pub const RULE: &str = "transfers recorded by a cooperative recording bus (acknowledges requests, silent on data, answers each transfer's state query from a generated verdict list failed/received so that 0, 1, 2 retries and the give-up case occur): configure for all 11 sign types and send_pages with 0..6 pages whose sizes are generated independently of the sign's own size from one chunk (16 bytes) to 4096 chunks (65536 bytes, last offset 65520), contents pseudo-random, addresses across the 16-bit range. The transcript is parsed attempt by attempt (request+ack, data chunks, count, state query) and each attempt's chunk list must equal, element for element, the list computed from the inputs (per item: offsets 0,16,32,..., <= 16 bytes each, concatenation = the item), the announced count must equal the number of chunks of that attempt, and the state query must come only after the count; the configuration item must equal an independent copy of the type's 16-byte block. Non-trivial = >= 2 pages, or a page size different from the sign's, or >= 1 retry; distinct by hash of the case";
+pub const RULE: &str = "transfers recorded by a cooperative recording bus (acknowledges requests, silent on data, answers each transfer's state query from a generated verdict list failed/received so that 0, 1, 2 retries and the give-up case occur): configure for all 11 sign types and send_pages with 0..6 pages whose sizes are generated independently of the sign's own size from one chunk (16 bytes) to 4096 chunks (65536 bytes, last offset 65520), contents pseudo-random, addresses across the 16-bit range; also sequences of 2..4 such transfers on ONE Sign object, each judged on its own slice of the transcript. The transcript is parsed attempt by attempt (request+ack, data chunks, count, state query) and each attempt's chunk list must equal, element for element, the list computed from the inputs (per item: offsets 0,16,32,..., <= 16 bytes each, concatenation = the item), the announced count must equal the number of chunks of that attempt, and the state query must come only after the count; the configuration item must equal an independent copy of the type's 16-byte block. Non-trivial = >= 2 pages, or a page size different from the sign's, or >= 1 retry; distinct by hash of the case";
 pub const ASSUMPTIONS: &[&str] = &[
     "total chunks per attempt are kept <= 65535 because the count travels in a 16-bit field; beyond that the property is unsatisfiable by any implementation",
     "how many attempts occur is C10/C11's subject; every attempt that does occur is checked",
@@ -90,25 +90,20 @@ fn page_dims(chunks: u16) -> (u32, u32) {
     ((chunks as u32) * 16 - 4, 8)
 }
 
-pub fn check_transfer(c: &TransferCase, st: &mut Stats) -> Result<(), String> {
-    let (sign_type, _, _, sw, sh) = TYPES[c.sign_type as usize % 11];
-    let rec = Rc::new(RefCell::new(Recorder { own: c.addr, bad_ack: c.bad_ack, transfer_requests: 0, verdicts: c.verdicts.clone(), attempt: 0, log: vec![], last_transfer_op: 0 }));
-    let sign = Sign::new(rec.clone(), Address(c.addr), sign_type);
-    // inputs
-    let items: Vec<Vec<u8>> = match &c.pages {
+fn items_of(c: &TransferCase) -> Vec<Vec<u8>> {
+    match &c.pages {
         None => vec![BLOCKS[c.sign_type as usize % 11].to_vec()],
         Some(sizes) => sizes
             .iter()
             .enumerate()
             .map(|(p, &chunks)| (0..(chunks.max(1) as usize) * 16).map(|i| h64(&(c.seed, p as u64, i as u64)) as u8).collect())
             .collect(),
-    };
-    let total_chunks: usize = items.iter().map(|i| (i.len() + 15) / 16).sum();
-    if total_chunks > 65535 {
-        st.class("skipped:more-than-65535-chunks");
-        return Ok(()); // outside the domain (16-bit count)
     }
-    let r = match &c.pages {
+}
+
+/// run one transfer operation of `c` on an existing Sign; Err = controller panic
+fn run_op(sign: &Sign, c: &TransferCase, items: &[Vec<u8>]) -> Result<Result<(), String>, String> {
+    match &c.pages {
         None => catch(|| sign.configure().map(|_| ()).map_err(|e| format!("{e:?}"))),
         Some(sizes) => {
             let pages: Vec<Page<'_>> = sizes
@@ -122,14 +117,74 @@ pub fn check_transfer(c: &TransferCase, st: &mut Stats) -> Result<(), String> {
             catch(|| sign.send_pages(&pages).map(|_| ()).map_err(|e| format!("{e:?}")))
         }
     }
-    .map_err(|p| format!("the controller panicked during the transfer: {p}"))?;
+    .map_err(|p| format!("the controller panicked during the transfer: {p}"))
+}
+
+pub fn check_transfer(c: &TransferCase, st: &mut Stats) -> Result<(), String> {
+    let (sign_type, _, _, _, _) = TYPES[c.sign_type as usize % 11];
+    let rec = Rc::new(RefCell::new(Recorder { own: c.addr, bad_ack: c.bad_ack, transfer_requests: 0, verdicts: c.verdicts.clone(), attempt: 0, log: vec![], last_transfer_op: 0 }));
+    let sign = Sign::new(rec.clone(), Address(c.addr), sign_type);
+    let items = items_of(c);
+    let total_chunks: usize = items.iter().map(|i| (i.len() + 15) / 16).sum();
+    if total_chunks > 65535 {
+        st.class("skipped:more-than-65535-chunks");
+        return Ok(()); // outside the domain (16-bit count)
+    }
+    let r = run_op(&sign, c, &items)?;
     st.eval();
-    let log = &rec.borrow().log;
+    let log = rec.borrow().log.clone();
+    judge_slice(c, &items, &log, &r, st)
+}
+
+/// Several transfers on ONE Sign object and one recording bus (configure, then several send_pages with different
+/// page lists): every operation's slice of the transcript is judged like a single transfer.
+#[derive(Serialize, Deserialize, Debug, Clone, PartialEq, Eq, Hash)]
+pub struct TransferSeq {
+    pub ops: Vec<TransferCase>,
+}
+
+pub fn check_transfer_seq(c: &TransferSeq, st: &mut Stats) -> Result<(), String> {
+    if c.ops.is_empty() {
+        return Ok(());
+    }
+    let first = &c.ops[0];
+    let (sign_type, _, _, _, _) = TYPES[first.sign_type as usize % 11];
+    let verdicts: Vec<bool> = c.ops.iter().flat_map(|o| o.verdicts.iter().copied()).collect();
+    let rec = Rc::new(RefCell::new(Recorder { own: first.addr, bad_ack: None, transfer_requests: 0, verdicts, attempt: 0, log: vec![], last_transfer_op: 0 }));
+    let sign = Sign::new(rec.clone(), Address(first.addr), sign_type);
+    for (k, op) in c.ops.iter().enumerate() {
+        // every operation uses the first one's address and sign type (it is the same Sign object)
+        let op = TransferCase { addr: first.addr, sign_type: first.sign_type, bad_ack: None, ..op.clone() };
+        let items = items_of(&op);
+        if items.iter().map(|i| (i.len() + 15) / 16).sum::<usize>() > 65535 {
+            return Ok(());
+        }
+        let start = rec.borrow().log.len();
+        // the recorder's verdict list is consumed attempt by attempt: make this operation's verdicts line up
+        let used = rec.borrow().attempt;
+        let r = run_op(&sign, &op, &items)?;
+        st.eval();
+        let slice = rec.borrow().log[start..].to_vec();
+        judge_slice(&op, &items, &slice, &r, st).map_err(|e| format!("operation {k} of a sequence on one Sign object: {e}"))?;
+        // skip the verdicts this operation did not use, so that the next operation starts at its own list
+        let mut rb = rec.borrow_mut();
+        let planned: usize = c.ops[..=k].iter().map(|o| o.verdicts.len()).sum();
+        if rb.attempt < planned {
+            rb.attempt = planned;
+        }
+        let _ = used;
+    }
+    st.class("sequence-on-one-sign-object");
+    Ok(())
+}
+
+fn judge_slice(c: &TransferCase, items: &[Vec<u8>], log: &[(M, Option<M>)], r: &Result<(), String>, st: &mut Stats) -> Result<(), String> {
+    let (sign_type, _, _, sw, sh) = TYPES[c.sign_type as usize % 11];
     let op = if c.pages.is_none() { O_RECEIVE_CONFIG } else { O_RECEIVE_PIXELS };
 
     // expected chunk list of one attempt
     let mut expected: Vec<M> = vec![];
-    for item in &items {
+    for item in items {
         let mut off = 0usize;
         while off < item.len() {
             let end = (off + 16).min(item.len());
@@ -301,10 +356,21 @@ pub fn run(ctx: &Ctx) {
     ctx.part_done("offset-limit", true, json!("pages of 4096 chunks (last offset 65520), alone and next to small pages"));
 
     run_generated(ctx, "generated", ctx.tier.pick(100_000, 2_000_000), || case_strategy(6, false), |c, st| check_transfer(c, st));
+    run_generated(
+        ctx,
+        "sequences",
+        ctx.tier.pick(30_000, 600_000),
+        || proptest::collection::vec(case_strategy(4, false), 2..=4).prop_map(|ops| TransferSeq { ops }),
+        |c, st| check_transfer_seq(c, st),
+    );
     run_generated(ctx, "generated-large-pages", ctx.tier.pick(2_000, 40_000), || case_strategy(4, true), |c, st| check_transfer(c, st));
 }
 
-pub fn replay(_part: &str, case: &Value) -> Result<(), String> {
+pub fn replay(part: &str, case: &Value) -> Result<(), String> {
+    if part == "sequences" {
+        let c: TransferSeq = serde_json::from_value(case.clone()).map_err(|e| format!("bad case: {e}"))?;
+        return check_transfer_seq(&c, &mut Stats::new());
+    }
     let c: TransferCase = serde_json::from_value(case.clone()).map_err(|e| format!("bad case: {e}"))?;
     check_transfer(&c, &mut Stats::new())
 }
